@@ -13,25 +13,25 @@ import (
 // TV is a typed Go value in transit: the harness rebuilds the exact Go type from it and prints
 // the Gallina literal (Model/GoVal.v: gval) of the same value.
 type TV struct {
-	T   string   `json:"t"`             // Go type name, "nil", or "other:<kind>"
-	I   *int64   `json:"i,omitempty"`   // signed integers
-	U   *uint64  `json:"u,omitempty"`   // unsigned integers
-	F   string   `json:"f,omitempty"`   // floats, strconv 'g' -1 text ("NaN", "+Inf", "-Inf" allowed)
-	S   *string  `json:"s,omitempty"`   // string / json.Number
-	B   *bool    `json:"b,omitempty"`   // bool
-	L   []TV     `json:"l,omitempty"`   // slice / array / list elements
-	Nil bool     `json:"nil,omitempty"` // typed nil (slices, maps, pointers ...)
+	T   string  `json:"t"`             // Go type name, "nil", or "other:<kind>"
+	I   *int64  `json:"i,omitempty"`   // signed integers
+	U   *uint64 `json:"u,omitempty"`   // unsigned integers
+	F   string  `json:"f,omitempty"`   // floats, strconv 'g' -1 text ("NaN", "+Inf", "-Inf" allowed)
+	S   *string `json:"s,omitempty"`   // string / json.Number
+	B   *bool   `json:"b,omitempty"`   // bool
+	L   []TV    `json:"l,omitempty"`   // slice / array / list elements
+	Nil bool    `json:"nil,omitempty"` // typed nil (slices, maps, pointers ...)
 }
 
-func tvInt(t string, v int64) TV    { return TV{T: t, I: &v} }
-func tvUint(t string, v uint64) TV  { return TV{T: t, U: &v} }
-func tvStr(v string) TV             { return TV{T: "string", S: &v} }
-func tvJSON(v string) TV            { return TV{T: "json.Number", S: &v} }
-func tvBool(v bool) TV              { return TV{T: "bool", B: &v} }
+func tvInt(t string, v int64) TV     { return TV{T: t, I: &v} }
+func tvUint(t string, v uint64) TV   { return TV{T: t, U: &v} }
+func tvStr(v string) TV              { return TV{T: "string", S: &v} }
+func tvJSON(v string) TV             { return TV{T: "json.Number", S: &v} }
+func tvBool(v bool) TV               { return TV{T: "bool", B: &v} }
 func tvFloat(t string, f float64) TV { return TV{T: t, F: strconv.FormatFloat(f, 'g', -1, 64)} }
-func tvNil() TV                     { return TV{T: "nil"} }
-func tvList(l ...TV) TV             { return TV{T: "[]interface{}", L: l} }
-func tvSlice(t string, l ...TV) TV  { return TV{T: t, L: l} }
+func tvNil() TV                      { return TV{T: "nil"} }
+func tvList(l ...TV) TV              { return TV{T: "[]interface{}", L: l} }
+func tvSlice(t string, l ...TV) TV   { return TV{T: t, L: l} }
 
 var signedKinds = map[string]bool{"int": true, "int8": true, "int16": true, "int32": true, "int64": true}
 var unsignedKinds = map[string]bool{"uint": true, "uint8": true, "uint16": true, "uint32": true, "uint64": true}
